@@ -265,7 +265,21 @@ def interpolation_shape(P, rep, rule="I1"):
                         t = R(decls[z["n"]]["c"][0])
                     srcs.append(t)
                 gp = par
-                if len(a) == 3 and a[2] is x and "current_section" in srcs[0] and srcs[1] == srcs[0].replace("current_section", "next_section"):
+                # which grains object a quaternion comes from: the local inside its initialiser, told apart by the model loop that updates it
+                def grains_local(z):
+                    z0 = z
+                    if z.get("k") == "DeclRefExpr" and z.get("n") in decls:
+                        z0 = decls[z["n"]]["c"][0]
+                    for y in F.walk(z0):
+                        if y.get("k") == "DeclRefExpr" and P.d(y["r"]).get("storage") == "local" and "grains" in (y.get("t") or P.d(y["r"]).get("t") or ""):
+                            return y["r"]
+                    return None
+                ga, gb = (grains_local(a[0]), grains_local(a[1])) if len(a) == 3 else (None, None)
+                strip_ = lambda t, key: t.replace(P.d(key).get("n", "\0"), "G") if key else t
+                if len(a) == 3 and a[2] is x and ga and gb and updated_by_section(P, F, ga) == "current_section" and updated_by_section(P, F, gb) == "next_section" \
+                        and strip_(srcs[0], ga) == strip_(srcs[1], gb):
+                    ok = True
+                elif len(a) == 3 and a[2] is x and "current_section" in srcs[0] and srcs[1] == srcs[0].replace("current_section", "next_section"):
                     ok = True
                 else:
                     why = "slerp(%s, %s, f) does not interpolate from the current to the next section" % (srcs[0][:40], srcs[1][:40])
@@ -285,6 +299,7 @@ def section_model_loops(P, rep, rule="I1.models"):
     n = 0
     for cls in LINE.values():
         F = P.func(cls + "::properties")
+        targets = {}
         for loop in F.walk():
             if loop.get("k") != "CXXForRangeStmt":
                 continue
@@ -313,8 +328,10 @@ def section_model_loops(P, rep, rule="I1.models"):
                 if tgt is None:
                     problems.append("model result is not assigned")
                 else:
-                    if not tgt.endswith("_" + S):
-                        problems.append("models of %s update %s" % (S, tgt))
+                    # which running value belongs to which section is not read from its name: the two loops of one kind must update
+                    # two different locals (checked below), and I1 requires the interpolation to run from the local updated by the
+                    # current section's models to the one updated by the next section's
+                    targets.setdefault(kind, {})[S] = tgt
                     args = [norm.render(P, a) for a in c["c"][1:]]
                     if tgt not in args:
                         problems.append("the running value %s is not the incoming argument" % tgt)
@@ -324,6 +341,11 @@ def section_model_loops(P, rep, rule="I1.models"):
                               witness="two sections with different %s models" % kind)
             else:
                 rep.ok(rule, "%s: %s -> *_%s" % (cls.split("::")[-1], rng, S), F.nloc(loop), F.qn)
+        for kind, tg in targets.items():
+            if len(tg) == 2 and len(set(tg.values())) == 1:
+                rep.violation(rule, "%s: the %s models of both sections update the same local %s" % (cls, kind, list(tg.values())[0]), F.loc, F.qn, "",
+                              "the value of the current section is overwritten by the next section's models before the two are interpolated",
+                              key="%s|%s|%s|shared" % (rule, cls, kind), witness="two sections with different %s models" % kind)
     rep.floor(rule, n, 16, "per-section model loops")
 
 
@@ -515,6 +537,12 @@ def plane_call_sites(P, rep, rule="M2"):
                    "arguments (a fault's properties additionally asks for the absolute distance) and the same starting radius "
                    "get_depth_coordinate() + depth - starting_depth; distance_to_feature_plane returns (distance_from_plane, "
                    "distance_along_plane) in that order and World::distance_to_plane forwards point, depth and name unchanged")
+    for cls_ in LINE.values():
+        Fp = P.func(cls_ + "::properties")
+        miss = astq.missing_anchors(P, Fp, ["starting_radius"])
+        if miss:
+            rep.unknown(rule, "%s::properties: the local %s this rule is written over no longer exists (renamed?)" % (cls_, miss))
+            return
     R = lambda F, x: norm.render(P, x, nocast=True).replace(" ", "")
     for name, cls in LINE.items():
         sites = {}
